@@ -970,6 +970,13 @@ class PGPMessage(Armorable, PGPObject):
             return self.bytes_to_text(self._message)
 
         if self.type == 'literal':
+            if self._message.format == 't':
+                # 't' is text in the message's character encoding (UTF-8 unless a Charset hint says otherwise);
+                # text of another producer that is not valid under it is read as Latin-1, which cannot fail
+                try:
+                    return self._message._contents.decode(self.charset)
+                except (UnicodeDecodeError, LookupError):
+                    return self._message._contents.decode('latin-1')
             return self._message.contents
 
         if self.type == 'encrypted':
@@ -1229,7 +1236,10 @@ class PGPMessage(Armorable, PGPObject):
         else:
             # load literal data
             lit = LiteralData()
-            lit._contents = bytearray(msg.text_to_bytes(message))
+            if isinstance(message, str):
+                # text is stored under the message's character encoding; the marker 'u' always means UTF-8
+                message = message.encode('utf-8' if format == 'u' else (charset or 'utf-8'))
+            lit._contents = bytearray(message)
             lit.filename = '_CONSOLE' if sensitive else os.path.basename(filename)
             lit.mtime = mtime
             lit.format = format
